@@ -115,6 +115,9 @@ void harness(void) {
 #else
   ASSUME(usecs >= 86400 * US);
 #endif
+#ifdef USECS_LO
+  ASSUME(usecs >= USECS_LO && usecs <= USECS_HI); /* optional sub-range of the class (case split outside the solver) */
+#endif
 #if PREC < 0
   int32_t p = (int32_t)in_irange(-128, -1);
 #else
